@@ -206,12 +206,16 @@ def evaluate__div_operator(self: XPathToken, context: ta.ContextType = None) \
             isinstance(dividend, (int, decimal.Decimal)) and \
             isinstance(divisor, (int, decimal.Decimal)):
         raise self.error('FOAR0001')
-    elif dividend == 0:
-        return math.nan
+    elif dividend == 0 or math.isnan(dividend):
+        return _float_result(math.nan, dividend, divisor)
     elif dividend > 0:
-        return float('-inf') if str(divisor).startswith('-') else float('inf')
+        return _float_result(
+            float('-inf') if str(divisor).startswith('-') else float('inf'), dividend, divisor
+        )
     else:
-        return float('inf') if str(divisor).startswith('-') else float('-inf')
+        return _float_result(
+            float('inf') if str(divisor).startswith('-') else float('-inf'), dividend, divisor
+        )
 
 
 @method(infix('mod', bp=45))
